@@ -1,12 +1,25 @@
 #!/bin/bash
 # Extract the Coq models into ocaml/gen and build ocaml/modelrun.
+# ocaml/extract.d/<name>.txt: lines "Require <Module>" and qualified names to extract.
+# Extraction uses ExtrOcamlBasic only; nat/positive/N/Z stay Coq datatypes; no Extract Constant.
 set -e
 cd "$(dirname "$0")"
 rm -rf gen _build && mkdir -p gen _build
-(cd gen && coqc -Q ../../coq/theories Ekit ../../coq/theories/extract/Extract.v >/dev/null)
+{
+  echo "From Coq Require Extraction."
+  echo "From Coq Require Import ExtrOcamlBasic ZArith NArith List."
+  echo "From Ekit Require Import Common."
+  cat extract.d/*.txt | grep '^Require ' | sort -u | sed 's/^Require \(.*\)$/From Ekit Require \1./'
+  echo "Extraction Language OCaml."
+  echo "Separate Extraction"
+  echo "  Z.add Z.mul Z.sub Z.opp Z.div_eucl Z.div Z.modulo Z.of_nat Z.to_nat Z.of_N Z.to_N"
+  echo "  Z.eqb Z.ltb Z.leb Z.compare Nat.add N.add N.of_nat N.to_nat Pos.succ"
+  cat extract.d/*.txt | grep -v '^Require ' | grep -v '^\s*$' | grep -v '^#' | sed 's/^/  /'
+  echo "."
+} > gen/Extract.v
+(cd gen && coqc -Q ../../coq/theories Ekit Extract.v >/dev/null)
 cp gen/*.ml gen/*.mli _build/
-cp zutil.ml drv_*.ml main.ml _build/
+cp zutil.ml registry.ml drv_*.ml main.ml _build/
 cd _build
-GEN=$(cd ../gen && ls *.ml)
-ORDER=$(ocamlfind ocamldep -sort *.mli *.ml)
-ocamlfind ocamlopt -O2 -w -a -o ../modelrun $ORDER 2>/dev/null || ocamlfind ocamlopt -w -a -o ../modelrun $ORDER
+ORDER=$(ocamlfind ocamldep -sort $(ls *.mli *.ml | grep -v '^main.ml$'))
+ocamlfind ocamlopt -O3 -w -a -o ../modelrun $ORDER main.ml 2>/dev/null || ocamlfind ocamlopt -w -a -o ../modelrun $ORDER main.ml
